@@ -16,8 +16,11 @@ namespace DFS { bool verbose = false; }
 
 using DFS::byte;
 
+#ifndef WALK_MAXLEN
+#define WALK_MAXLEN 1024
+#endif
 namespace {
-constexpr unsigned MAXCALLS = 6;
+constexpr unsigned MAXCALLS = WALK_MAXLEN / 256 + 2;      // the longest file of the query plus one spare call
 
 // A medium that records which sectors are requested.  The sector returned by
 // call number k carries seed[k] at byte offset `probe` (a symbolic offset chosen
